@@ -58,6 +58,9 @@ type safeSubmissionState struct {
 
 	results map[string]*submissionResult
 	cancels map[string]context.CancelFunc
+	// done holds, per requested Log, a channel that is closed once the request
+	// to that Log has finished (or was found not to be needed by any group).
+	done map[string]chan struct{}
 }
 
 func newSafeSubmissionState(groups ctpolicy.LogPolicyData) *safeSubmissionState {
@@ -69,6 +72,7 @@ func newSafeSubmissionState(groups ctpolicy.LogPolicyData) *safeSubmissionState 
 	}
 	s.results = make(map[string]*submissionResult)
 	s.cancels = make(map[string]context.CancelFunc)
+	s.done = make(map[string]chan struct{})
 	return &s
 }
 
@@ -83,6 +87,7 @@ func (sub *safeSubmissionState) request(logURL string, cancel context.CancelFunc
 		return false
 	}
 	sub.results[logURL] = &submissionResult{}
+	sub.done[logURL] = make(chan struct{})
 	isAwaited := false
 	for g := range sub.logToGroups[logURL] {
 		if sub.groupNeeds[g] > 0 {
@@ -92,6 +97,7 @@ func (sub *safeSubmissionState) request(logURL string, cancel context.CancelFunc
 	}
 	if !isAwaited {
 		// No groups expecting result from this Log.
+		close(sub.done[logURL])
 		verifTrace(sub, "request-unneeded", logURL, false)
 		return false
 	}
@@ -106,6 +112,7 @@ func (sub *safeSubmissionState) request(logURL string, cancel context.CancelFunc
 func (sub *safeSubmissionState) setResult(logURL string, sct *ct.SignedCertificateTimestamp, err error) {
 	sub.mu.Lock()
 	defer sub.mu.Unlock()
+	defer close(sub.done[logURL])
 	if sct == nil {
 		sub.results[logURL] = &submissionResult{sct: sct, err: err}
 		verifTrace(sub, "setResult", logURL, false)
@@ -160,6 +167,21 @@ func (sub *safeSubmissionState) setResult(logURL string, sct *ct.SignedCertifica
 		}
 	}
 	verifTrace(sub, "setResult", logURL, true)
+}
+
+// wait blocks until the request made to the Log on behalf of another group has
+// finished, or until ctx is done.
+func (sub *safeSubmissionState) wait(ctx context.Context, logURL string) {
+	sub.mu.Lock()
+	done := sub.done[logURL]
+	sub.mu.Unlock()
+	if done == nil {
+		return
+	}
+	select {
+	case <-done:
+	case <-ctx.Done():
+	}
 }
 
 // groupComplete returns true iff the specified group has all the SCTs it needs.
@@ -228,6 +250,10 @@ func groupRace(ctx context.Context, chain []ct.ASN1Cert, asPreChain bool,
 				return
 			}
 			if firstRequested := state.request(logURL, cancel); !firstRequested {
+				// The Log is being (or has been) asked on behalf of another
+				// group; its answer may still complete this group, so this
+				// Log only counts as processed once that request is over.
+				state.wait(subCtx, logURL)
 				return
 			}
 			sct, err := submitter.SubmitToLog(subCtx, logURL, chain, asPreChain)
